@@ -98,7 +98,7 @@ def same(ctx, rule, instance, fi, got, want, what, stmt=None, node=None):
         ctx.ok(rule, instance, where, "%s: %s [%s]" % (what, _clip(show(got)), how))
         ctx.sample({"rule": rule, "instance": instance, "term": _clip(show(got), 400), "decided_by": how})
         return True
-    undecided(ctx, rule, instance, [got])
+    undecided(ctx, rule, instance, [got], [want])
     if os.environ.get("PCSTATIC_DEBUG_TERMS"):
         import pprint
         with open(os.environ["PCSTATIC_DEBUG_TERMS"], "a") as fh:
@@ -160,12 +160,56 @@ def unresolved_new_names(ctx, things):
     return sorted(out)
 
 
-def undecided(ctx, rule, instance, things):
+# iteration / call plumbing of the standard library that the interpreter does not model (where it does — islice, reduce
+# over a concrete sequence, repeat, chain — no such atom is left in the term).  These do not compute values of their
+# own; a term that still contains one is a re-expression the comparison cannot see through.
+PLUMBING = ("next", "iter", "map", "filter", "functools.reduce", "reduce", "functools.partial", "partial")
+PLUMBING_PREFIXES = ("itertools.", "operator.", "collections.")
+
+
+def _plumbing_names(things):
+    out = set()
+
+    def look(name):
+        n = name.lstrip(".")
+        if n in PLUMBING or n.startswith(PLUMBING_PREFIXES):
+            out.add(n)
+
+    def scan(v):
+        if v is None:
+            return
+        for a in atoms_of(v):
+            if a[0] in ("call", "mcall") and len(a) > 1 and isinstance(a[1], str):
+                if a[0] == "call":
+                    look(a[1])
+            elif a[0] == "g" and len(a) > 1 and isinstance(a[1], str):
+                look(a[1])
+
+    for t in things:
+        try:
+            if hasattr(t, "args") and hasattr(t, "name"):
+                if not t.name.startswith("."):
+                    look(t.name)
+                for a in list(t.args) + list(t.kwargs.values()) + ([t.recv] if t.recv is not None else []):
+                    scan(a)
+            else:
+                scan(t)
+        except Exception:  # noqa
+            pass
+    return out
+
+
+def undecided(ctx, rule, instance, things, reference=()):
     """A comparison failed, but the code's side still goes through helpers the rules cannot know and the interpreter
-    could not look into: that is not a violation established, it is an analysis that cannot proceed."""
+    could not look into, or through library plumbing (next, itertools.count, functools.partial ...) that the reference
+    does not use and the interpreter does not model: that is not a violation established, it is an analysis that
+    cannot proceed."""
     names = unresolved_new_names(ctx, things)
     if names:
         raise AnalysisError("%s / %s: cannot decide — the code goes through %s (newer than the rules; recursion or nesting beyond the interpreter's bound)" % (rule, instance, ", ".join(names)))
+    extra = sorted(_plumbing_names(things) - _plumbing_names(reference))
+    if extra:
+        raise AnalysisError("%s / %s: cannot decide — the code is re-expressed through %s, which the interpreter does not model" % (rule, instance, ", ".join(extra)))
 
 
 def _clip(s, n=240):
@@ -225,7 +269,7 @@ def same_events(ctx, rule, instance, fi, got, want, what, skip_args=(), guards=F
         if _same_sequences(got, want, skip_args):
             ctx.ok(rule, instance, fi.where(), "%s: %d call(s) agree with the specification scenario by scenario (paths listed in a different order)" % (what, len(got)))
             return True
-        undecided(ctx, rule, instance, list(got))
+        undecided(ctx, rule, instance, list(got), list(want))
         ctx.fail(rule, instance, fi.where(), "%s: %s; code: %s ; spec: %s" % (what, why, _clip(" | ".join(sig(e) for e in got), 700), _clip(" | ".join(sig(e) for e in want), 700)), construct=fi.qualname, stmt=what)
         return False
 
@@ -380,12 +424,8 @@ def imported(ctx, rule_fn, *args):
                 ctx.rule_min[r] = 0
 
 
-def same_effects(ctx, rule, instance, fi, got, want, what, ordered=False, trials=48):
-    """Obligation: under every guard scenario the code performs the same effects as the reference — the
-    (multi)set of uninterpreted calls / stores that are *active* (all guards of their path true), compared
-    by callee, receiver and argument values under random interpretation.  Insensitive to how paths fork, to
-    helper extraction (callee events carry their callers' guards) and, unless `ordered`, to the order of
-    independent effects."""
+def effects_agree(got, want, ordered=False, trials=48):
+    """(agree?, (only in the code, only in the reference)) — the comparison behind same_effects, without reporting."""
     from .termflow import Valuation, _round
 
     def sig(val, e):
@@ -429,9 +469,21 @@ def same_effects(ctx, rule, instance, fi, got, want, what, ordered=False, trials
                 only_ref = [text(e) for s_, e in b if s_ not in ka]
                 witness = (only_code, only_ref)
         if not any(verdicts):
-            only_code, only_ref = witness
-            undecided(ctx, rule, instance, list(got))
-            ctx.fail(rule, instance, fi.where(), "%s: in some guard scenario the code performs %s which the reference does not, and lacks %s" % (what, only_code[:4] or "nothing extra", only_ref[:4] or "nothing"), construct=fi.qualname, stmt=what)
-            return False
+            return False, witness
+    return True, None
+
+
+def same_effects(ctx, rule, instance, fi, got, want, what, ordered=False, trials=48):
+    """Obligation: under every guard scenario the code performs the same effects as the reference — the
+    (multi)set of uninterpreted calls / stores that are *active* (all guards of their path true), compared
+    by callee, receiver and argument values under random interpretation.  Insensitive to how paths fork, to
+    helper extraction (callee events carry their callers' guards) and, unless `ordered`, to the order of
+    independent effects."""
+    ok, witness = effects_agree(got, want, ordered=ordered, trials=trials)
+    if not ok:
+        only_code, only_ref = witness
+        undecided(ctx, rule, instance, list(got), list(want))
+        ctx.fail(rule, instance, fi.where(), "%s: in some guard scenario the code performs %s which the reference does not, and lacks %s" % (what, only_code[:4] or "nothing extra", only_ref[:4] or "nothing"), construct=fi.qualname, stmt=what)
+        return False
     ctx.ok(rule, instance, fi.where(), "%s: %d effect site(s) agree with the reference in %d guard scenarios" % (what, len(got), trials))
     return True
